@@ -24,7 +24,7 @@ CLAIMS = {
              "every buffer is freed exactly once in the unref that returns TRUE, the callback runs once before the "
              "frees and nothing is left when the client has dropped everything; ten wrong designs are rejected. Every "
              "call history of depth 3 and random histories of depth 25 are replayed on the real library; TLC "
-             "validates each call's unref return value, hook-reported counts, callbacks and the live-allocation set.",
+             "validates each call's unref return value, hook-reported counts, callbacks and the live-allocation set. " + 'Directed histories: every ordered pair of concrete setter values (incl. a zero-length parameter block) on every image kind, and one alpha map shared by two holders released in every order.' + "",
         ref="5 C20"),
 }
 
